@@ -2,6 +2,9 @@
 
 Proof obligations: Pixman.Props.C08 (model = lean/Pixman/Model/Fetch.lean, the reference fetchers of
 pixman-bits-image.c; spec = lean/Pixman/Spec/Sampling.lean + Spec/Repeat.lean).
+Specialised paths: Pixman.Props.C08Fast (model = lean/Pixman/Model/FetchFast.lean: affine iterators, FAST_NEAREST main
+loops, rotate 90/270, bilinear cover iterator) — each proved equal to the reference fetcher on its guard; `pixdrv samplefast`
+evaluates every request through those models where a guard holds and is compared with the library under all configurations.
 Correspondence: harness/sample.c against `pixdrv sample`: OP_SRC composites from a transformed
 a8r8g8b8 / x8r8g8b8 / a8 source (1..9 x 1..9) into an a8r8g8b8 destination, every filter x repeat x
 affine and projective transforms x destination offsets; each stream is executed once per
@@ -13,6 +16,22 @@ tolerance for projective NEAREST."""
 import collections, json, os, re, shutil, subprocess
 from concurrent.futures import ThreadPoolExecutor
 from engine.core import log, sh, VERIF
+
+REQUIRED_FAST = [
+    "Pixman.Props.C08Fast.nearest_affine_iter_eq",
+    "Pixman.Props.C08Fast.bilinear_affine_iter_eq",
+    "Pixman.Props.C08Fast.separable_affine_iter_eq",
+    "Pixman.Props.C08Fast.fast_nearest_cover_eq",
+    "Pixman.Props.C08Fast.fast_nearest_none_pad_eq",
+    "Pixman.Props.C08Fast.fast_nearest_normal_eq",
+    "Pixman.Props.C08Fast.scale_reference_rows",
+    "Pixman.Props.C08Fast.fast_rotate90_eq",
+    "Pixman.Props.C08Fast.fast_rotate270_eq",
+    "Pixman.Props.C08Fast.rotate90_reference_row",
+    "Pixman.Props.C08Fast.rotate270_reference_row",
+    "Pixman.Props.C08Fast.fast_bilinear_cover_eq_partial",
+    "Pixman.Props.C08Fast.bilinear_scanline_coords_partial",
+]
 
 REQUIRED = [
     "Pixman.Props.C08.repeat_spec",
@@ -37,8 +56,7 @@ REQUIRED = [
     "Pixman.Props.C08.division_spec",
     "Pixman.Props.C08.general_affine_agree",
     "Pixman.Props.C08.projective_position_bound_partial",
-    "Pixman.Props.C08.scaled_nearest_index_partial",
-    "Pixman.Props.C08.scaled_nearest_normal_partial",
+    "Pixman.Props.C08.projective_position_units_partial",
 ]
 
 CONFIGS = [("default", ""), ("no-ssse3", "ssse3"), ("no-ssse3-sse2", "ssse3 sse2"), ("no-simd", "ssse3 sse2 mmx"),
@@ -95,6 +113,8 @@ def signature(kind, req, text):
             return "composite-src|oracle|" + tag
         shape = f"{FILTER[r['filter']]}|{REPEAT[r['repeat']]}|{transform_class(r['m'])}" if r else ""
         return f"composite-src|oracle|{tag}|{shape}"
+    if kind == "disagree-fast" and r:
+        return f"composite-src|fast-model-differs|{tag}|{REPEAT[r['repeat']]}|{transform_class(r['m'])}|{FMT[r['fmt']]}"
     if kind == "disagree" and r:
         return f"composite-src|model-differs|{FILTER[r['filter']]}|{REPEAT[r['repeat']]}|{transform_class(r['m'])}|{FMT[r['fmt']]}"
     return f"composite-src|{kind}"
@@ -110,7 +130,7 @@ def run_stream(ctx, exe, i, corpus_path, seed, ncases):
     d = ctx.scratch / f"ss{i}"
     d.mkdir(exist_ok=True)
     pixdrv = str(VERIF / "lean" / ".lake" / "build" / "bin" / "pixdrv")
-    res = dict(findings=[], n=0, compared=0, stats=collections.Counter(), hist=collections.Counter(),
+    res = dict(findings=[], n=0, compared=0, compared_fast=0, stats=collections.Counter(), hist=collections.Counter(),
                nontrivial=set(), samples=[], cfg_lines=collections.Counter())
     ops0 = None
     model_lines = None
@@ -140,6 +160,15 @@ def run_stream(ctx, exe, i, corpus_path, seed, ncases):
                                         f"Lean driver failed or produced fewer lines than requests (exit {r2.returncode}, seed {seed}) [driver]"))
                 model_lines += [""] * (len(lo) - len(model_lines))
             res["n"] = len(lo)
+            # the same requests through the models of the specialised paths (Model/FetchFast.lean)
+            fastf = d / "fast.txt"
+            with open(ops) as fi, open(fastf, "w") as fo:
+                r3 = subprocess.run([pixdrv, "samplefast"], stdin=fi, stdout=fo, stderr=subprocess.PIPE, text=True)
+            fast_lines = fastf.read_text().split("\n")
+            if r3.returncode != 0 or len(fast_lines) < len(lo):
+                res["findings"].append(("stream", cname, "(stream)", None, None,
+                                        f"Lean driver (samplefast) failed or produced fewer lines than requests (exit {r3.returncode}, seed {seed}) [driver-fast]"))
+                fast_lines += [""] * (len(lo) - len(fast_lines))
         elif lo != ops0:
             res["findings"].append(("stream", cname, "(stream)", None, None,
                                     f"generator is not deterministic across configurations (seed {seed}) [generator]"))
@@ -158,6 +187,14 @@ def run_stream(ctx, exe, i, corpus_path, seed, ncases):
             a, m = li[k].strip(), model_lines[k].strip()
             if a != m:
                 res["findings"].append(("disagree", cname, req, a, m, "model and implementation differ"))
+            fm, _, ftag = fast_lines[k].strip().partition(" #")
+            if ftag not in ("projective", "convolution", "identity", "trivial", "dropped", "bad-matrix"):
+                res["compared_fast"] += 1
+                if ci == 0:
+                    res["hist"][f"fastpath-model:{ftag}"] += 1
+                if a != fm:
+                    res["findings"].append(("disagree-fast", cname, req, a, fm,
+                                            f"model of the specialised path and implementation differ [{ftag}]"))
             if ci == 0:
                 r = parse(req)
                 cls = transform_class(r["m"])
@@ -195,16 +232,18 @@ def run_streams(ctx, ncases, nstreams):
     with ThreadPoolExecutor(max_workers=8) as ex:
         results = list(ex.map(lambda j: run_stream(ctx, exe, j[0], j[1], j[2], ncases), jobs))
     findings, stats, hist, cfg = [], collections.Counter(), collections.Counter(), collections.Counter()
-    nontrivial, samples, total, compared = set(), [], 0, 0
+    nontrivial, samples, total, compared, compared_fast = set(), [], 0, 0, 0
     for r in results:
         findings += r["findings"]
         stats.update(r["stats"]); hist.update(r["hist"]); cfg.update(r["cfg_lines"])
         nontrivial |= r["nontrivial"]
         samples += r["samples"]
         total += r["n"]; compared += r["compared"]
+        compared_fast += r["compared_fast"]
     ctx.cov["evaluations"] += total
     ctx.cov["distinct_nontrivial"] += len(nontrivial)
     ctx.cov["traces_validated_against_impl"] += compared
+    ctx.extra["specialised_path_model_comparisons(request x configuration)"] = compared_fast
     ctx.cov["samples"] = samples[:6]
     ctx.cov["rule"] = (
         "independent requests: source 1..9 x 1..9 (half of them 1..3), formats a8r8g8b8 (70%), x8r8g8b8, a8; pixels constant / ramps / "
@@ -249,7 +288,7 @@ def report(ctx, findings, limit=10):
 
 
 def run(ctx):
-    broken = ctx.lean_obligations("Pixman.Props.C08", REQUIRED)
+    broken = ctx.lean_obligations("Pixman.Props.C08", REQUIRED + REQUIRED_FAST, extra_modules=["Pixman.Props.C08Fast"])
     quick = ctx.tier == "quick"
     findings = run_streams(ctx, 8000 if quick else 40000, 16 if quick else 48)
     report(ctx, findings)
